@@ -46,7 +46,8 @@ def good_streams(ctx, rng, n):
     for _ in range(nframes):
       if proto == 'pickle':
         dps = [wiresys.gen_datapoint(rng) for _ in range(rng.randint(1, 3))]
-        fr = wiresys.pickle_frame(dps, rng.randint(0, 5))
+        # every fourth pickle frame is what a Python 2 sender writes (names as byte strings)
+        fr = wiresys.py2_pickle_frame(dps) if len(out) % 4 == 1 else wiresys.pickle_frame(dps, rng.randint(0, 5))
         if len(fr) - 4 > wiresys.PICKLE_MAX:
           dps = dps[:1]
           fr = wiresys.pickle_frame(dps, 2)
@@ -83,8 +84,9 @@ def run_streams(ctx, wm, streams, budget, rng, with_res=False, with_pause=False)
       seen.add(tuple(cuts))
       ndp = sum(len(f['dps']) for f in frames)
       pause_at = (len(traces) % ndp) + 1 if (with_pause and proto != 'udp' and ndp and len(traces) % 3 == 0) else 0
-      traces.append(wiresys.execute(wm, proto, frames, cuts, None, res=res, pause_at=pause_at))
-      origins.append(dict(proto=proto, cuts=cuts, MIN_TIMESTAMP_RESOLUTION=res, pause_during_datapoint=pause_at, frames=[dict(kind=f['kind'], what=f.get('what', ''), hex=f['bytes'].hex()) for f in frames]))
+      idle = 8 if (with_pause and len(traces) % 4 == 1) else None
+      traces.append(wiresys.execute(wm, proto, frames, cuts, None, res=res, pause_at=pause_at, idle=idle))
+      origins.append(dict(proto=proto, cuts=cuts, MIN_TIMESTAMP_RESOLUTION=res, pause_during_datapoint=pause_at, METRIC_CLIENT_IDLE_TIMEOUT=idle, frames=[dict(kind=f['kind'], what=f.get('what', ''), hex=f['bytes'].hex()) for f in frames]))
       ctx.evaluations += 1
   return traces, origins
 
@@ -125,6 +127,14 @@ def run(ctx):
   v = wiresys.judge(ctx, [bad], 'negative control')
   ctx.negative_control('one delivered datapoint removed from the record', bool(v[0] & {'lost-or-late', 'wrong-datapoints', 'reordered'}))
   ctx.sample(dict(kind='segmented stream', origin=origins[k], segs=traces[k]['segs'][:8]))
+  listen_section(ctx)
+
+
+def listen_section(ctx):
+  """a client can only deliver datapoints if the listener lets it connect: admission under MAX_RECEIVER_CONNECTIONS
+  (Listen.tla); a port that stays paused below the limit is reported here"""
+  from . import listensys
+  listensys.section(ctx, violate=True)
 
 
 def replay(ctx, rp):
